@@ -377,6 +377,9 @@ func (cv CertValidity) toTimeStruct() (config.CertificateValidity, error) {
 func initCertificate(c CertConfig) (*config.CertificateContent, error) {
 	out := config.CertificateContent{}
 
+	if c.SerialNumber < 0 {
+		return nil, errors.New("config-v1: serialNumber must not be negative")
+	}
 	out.SerialNumber = c.SerialNumber
 	if len(c.IssuerUniqueId) > 0 {
 		b, err := readRawString(c.IssuerUniqueId)
